@@ -294,6 +294,14 @@ class StmtMixin:
         self.env[n] = v
         self.assume_wf(v)
 
+  def _heap_frame(self, ordinal, mods):
+    """Heap fields that the loop contract does not declare as modified must be untouched by the body."""
+    head = self.loop_head.get(ordinal, {})
+    for n, v in self.env.items():
+      if n.startswith('$H.') and n not in mods and n in head and isinstance(v, V) and not v.t.eq(head[n].t):
+        raise ContractMisfit('%s: heap field %s is written in loop #%d but is not in the loop contract\'s havoc list' % (
+            self.cur_contract.label, n, ordinal))
+
   def _end_of_iteration(self, lc, ordinal):
     self._ghost_run(lc.ghost_end)
     for j, lem in enumerate(lc.lemmas):
@@ -348,6 +356,7 @@ class StmtMixin:
       g1 = dict(ghost)
       g1[idx_name] = V(S.INT, i + 1)
       self._check_owned(st, mods)
+      self._heap_frame(ordinal, mods)
       self._check_inv(lc, 'inv.preserve', ordinal, g1)
       raise PathEnd()
     # 3. exit: all elements consumed
@@ -410,6 +419,7 @@ class StmtMixin:
         return
       self._end_of_iteration(lc, ordinal)
       self._check_owned(st, mods)
+      self._heap_frame(ordinal, mods)
       self._check_inv(lc, 'inv.preserve', ordinal, {})
       raise PathEnd()
     if z3.is_true(z3.simplify(c)):
